@@ -95,6 +95,65 @@ inline Block *containing(const void *p)
     return nullptr;
 }
 
+#if defined(__SANITIZE_ADDRESS__)
+#define VRT_ALLOC_ASAN 1
+#elif defined(__has_feature)
+#if __has_feature(address_sanitizer)
+#define VRT_ALLOC_ASAN 1
+#endif
+#endif
+#ifdef VRT_ALLOC_ASAN
+extern "C" void __asan_poison_memory_region(void const volatile *addr, size_t size);
+extern "C" void __asan_unpoison_memory_region(void const volatile *addr, size_t size);
+#endif
+
+// Address reuse for blocks that go through operator new / delete (the library's heap blocks among them): ASan's quarantine
+// keeps a released block away from the allocator for a long time, so state keyed by the address of a heap block would never
+// be stale in these runs, while a real allocator hands the address out again at once.  One release in four of a block of up
+// to 8 KiB is parked (poisoned meanwhile) and given to the next request of exactly that size, refilled with the 0xbe pattern
+// ASan gives fresh memory (so that "result unit never written" monitors see what they would see on a fresh block).
+struct NewPool {
+    enum { SLOTS = 127 };
+    void *ptr[SLOTS];
+    size_t size[SLOTS];
+    uint64_t reused = 0;
+};
+inline NewPool &new_pool() { static NewPool *p = static_cast<NewPool *>(calloc(1, sizeof(NewPool))); return *p; }
+inline void *pool_take(size_t size)
+{
+    if (!vrt::placement_here() || size == 0 || size > 8192) return nullptr;
+    NewPool &np = new_pool();
+    const size_t k = size % NewPool::SLOTS;
+    if (!np.ptr[k] || np.size[k] != size) return nullptr;
+    void *p = np.ptr[k];
+    np.ptr[k] = nullptr;
+#ifdef VRT_ALLOC_ASAN
+    __asan_unpoison_memory_region(p, size);
+#endif
+    memset(p, 0xbe, size);
+    ++np.reused;
+    ++vrt::recycled_new_blocks();
+    return p;
+}
+inline bool pool_park(void *p, size_t size)
+{
+    if (!vrt::placement_here() || size == 0 || size > 8192 || (vrt::placement_next() & 3) != 0) return false;
+    NewPool &np = new_pool();
+    const size_t k = size % NewPool::SLOTS;
+    if (np.ptr[k]) {
+#ifdef VRT_ALLOC_ASAN
+        __asan_unpoison_memory_region(np.ptr[k], np.size[k]);
+#endif
+        free(np.ptr[k]);
+    }
+    np.ptr[k] = p;
+    np.size[k] = size;
+#ifdef VRT_ALLOC_ASAN
+    __asan_poison_memory_region(p, size);
+#endif
+    return true;
+}
+
 inline void *do_new(size_t size, bool is_array)
 {
     Registry &r = reg();
@@ -114,7 +173,8 @@ inline void *do_new(size_t size, bool is_array)
         }
         r.lib_bytes += size;
     }
-    void *p = malloc(size ? size : 1);
+    void *p = pool_take(size);
+    if (!p) p = malloc(size ? size : 1);
     if (!p) throw std::bad_alloc();
     if (r.poison >= 0 && size) memset(p, r.poison, size);
     if ((r.used + 1) * 10 >= r.cap * 7) grow();
@@ -151,7 +211,8 @@ inline void do_delete(void *p, bool is_array) noexcept
     if (b->in_lib) { --r.live_lib; if (b->is_array) --r.live_lib_arrays; }
     --r.live;
     b->state = 2;
-    free(p);
+    const size_t bsize = b->size;
+    if (!pool_park(p, bsize)) free(p);
 }
 
 // RAII: allocations inside are attributed to the library call under test
